@@ -343,8 +343,8 @@ def _regex_admitted(pattern: str) -> tuple[set[str], bool]:
 @prop(
     "C25",
     technique="lexer/handler agreement: the token regexes (string constants, parsed with re._parser) must admit every marker the handler dispatches on, the dispatch chain must end in a raise for unknown tokens, and positions must be assigned from remaining_positions in template order",
-    decides="only the agreement clause: every marker parse_command_line_template acts on ('out|', 'modify|', '?', '+', '*', '=', '$', ':', ',', '...', '/') is admitted by arg_pattern; a token matching none of the three token classes raises ValueError; an option without a field raises; arguments without explicit position receive positions from remaining_positions in the order they appear.",
-    not_decided="the inferred field types, optionality, multiplicity and defaults as values; argv order at run time (C22).",
+    decides="only the agreement clause: every marker parse_command_line_template acts on ('out|', 'modify|', '?', '+', '*', '=', '$', ':', ',', '...', '/') is admitted by arg_pattern; a token matching none of the three token classes raises ValueError; an option without a field raises; arguments without explicit position receive positions from remaining_positions in the order they appear; a pending option is never reset unread; defaults written after `=` are evaluated (not truth-tested as text); an explicit `$` path template is not overwritten by the default one.",
+    not_decided="the inferred field types, optionality and multiplicity as values; argv order at run time (C22).",
     level_note="Trusted: CPython's re._parser for the structure of the pattern constants.",
 )
 def check_c25(A: Analysis, col: Collector):
@@ -454,6 +454,57 @@ def check_c25(A: Analysis, col: Collector):
         col.ok("C25.unknown", "a trailing option without a field raises", A.loc(tail[0]))
     else:
         col.fail("C25.unknown", fn.qualname, "dangling-option-accepted", "an option at the end of the template without a field is silently dropped", A.loc(fn.node))
+    # a pending option is consumed by the next field (as its argstr); a branch that clears or overwrites the
+    # pending option without reading it drops that option from the command line
+    if opt_var is not None:
+        for kind, b in branches:
+            stores = [n for st in b.body for n in ast.walk(st) if isinstance(n, ast.Name) and n.id == opt_var and isinstance(n.ctx, ast.Store)]
+            loads = [n for st in b.body for n in ast.walk(st) if isinstance(n, ast.Name) and n.id == opt_var and isinstance(n.ctx, ast.Load)]
+            if stores and not loads:
+                col.fail("C25.order", fn.qualname, f"pending-option-dropped:{kind}", f"the `{kind}` token branch sets `{opt_var}` without looking at it: an option that is followed by {'another option' if kind == 'option' else 'a flag token'} instead of a field is silently dropped from the command line (only a trailing option is reported)", A.loc(stores[0]))
+            elif stores:
+                col.ok("C25.order", f"the `{kind}` token branch reads the pending option before it resets it", A.loc(stores[0]))
+    # pieces of the token text
+    tok_vars = {loop.target.id}
+    changed = True
+    while changed:
+        changed = False
+        for n in ast.walk(loop):
+            tg = []
+            if isinstance(n, ast.Assign):
+                tg = [(t, n.value) for t in n.targets]
+            elif isinstance(n, ast.NamedExpr):
+                tg = [(n.target, n.value)]
+            for t, v in tg:
+                if any(isinstance(k, ast.Name) and k.id in tok_vars for k in ast.walk(v)) and not any(isinstance(k, ast.Call) and isinstance(k.func, ast.Name) and k.func.id in ("eval", "literal_eval", "from_type_str", "bool", "int", "float") for k in [v]):
+                    for e in (t.elts if isinstance(t, ast.Tuple) else [t]):
+                        if isinstance(e, ast.Name) and e.id not in tok_vars:
+                            tok_vars.add(e.id)
+                            changed = True
+    # (a) a default written after `=` is evaluated; bool(<text>) is True for every non-empty text
+    bools = [c for c in ast.walk(loop) if isinstance(c, ast.Call) and isinstance(c.func, ast.Name) and c.func.id == "bool" and c.args and isinstance(c.args[0], ast.Name) and c.args[0].id in tok_vars]
+    evals = [c for c in ast.walk(loop) if isinstance(c, ast.Call) and isinstance(c.func, ast.Name) and c.func.id in ("eval", "literal_eval") and c.args and any(isinstance(k, ast.Name) and k.id in tok_vars for k in ast.walk(c.args[0]))]
+    for c in bools:
+        col.fail("C25.defaults", fn.qualname, "default-text-truth-tested", f"`{norm(c)}` turns the text written after `=` into a default by truth-testing the string: 'False' and '0' become True", A.loc(c))
+    if len(evals) >= 2 and not bools:
+        col.ok("C25.defaults", f"defaults written after `=` are evaluated ({len(evals)} sites), never truth-tested as text", A.loc(evals[0]))
+    elif len(evals) < 2:
+        col.fail("C25.defaults", fn.qualname, f"default-not-evaluated:{len(evals)}", f"only {len(evals)} of the two `=` default sites (argument tokens, flag tokens) evaluate the text written in the template", A.loc(loop))
+    # (b) an explicit `$` path template is stored once; any other store is under `'path_template' not in <kwds>`
+    pt_stores = [n for n in ast.walk(loop) if isinstance(n, ast.Assign) and any(isinstance(t, ast.Subscript) and isinstance(t.slice, ast.Constant) and t.slice.value == "path_template" for t in n.targets)]
+    A.anchor("stores to kwds['path_template'] in the template parser", pt_stores)
+    explicit = [n for n in pt_stores if any(isinstance(k, ast.Name) and k.id in tok_vars for k in ast.walk(n.value)) and any(isinstance(p_, ast.If) and any(isinstance(k, ast.Constant) and k.value == "$" for k in ast.walk(p_.test)) for p_ in parents(n))]
+    if not explicit:
+        raise AnalysisError("C25: the store of the explicit `$` path template was not recognised")
+    for n in pt_stores:
+        if n in explicit:
+            col.ok("C25.defaults", "the text after `$` is stored as the output's path_template", A.loc(n))
+            continue
+        guarded = any(isinstance(p_, ast.If) and any(isinstance(k, ast.Compare) and len(k.ops) == 1 and isinstance(k.ops[0], ast.NotIn) and isinstance(k.left, ast.Constant) and k.left.value == "path_template" for k in ast.walk(p_.test)) and n in list(ast.walk(ast.Module(body=p_.body, type_ignores=[]))) for p_ in parents(n))
+        if guarded:
+            col.ok("C25.defaults", "the default path_template (field name + format extension) is stored only when none was written", A.loc(n))
+        else:
+            col.fail("C25.defaults", fn.qualname, "explicit-path-template-overwritten", f"`{norm(n, 60)}` is not guarded by `'path_template' not in <kwds>`: a template written with `$` is replaced by <field name><extension of the format>", A.loc(n))
     # positions in template order: the list filled by the nested helper is walked in order and
     # unpositioned entries take remaining_positions(...).pop(0)
     rem_vars = {n.targets[0].id for n in walk_own(fn.node) if isinstance(n, ast.Assign) and isinstance(n.targets[0], ast.Name) and isinstance(n.value, ast.Call) and any(q.endswith("remaining_positions") for q in A.callee_names(n.value, fn))}
